@@ -274,10 +274,10 @@ def aMain (ctx : ACtx R) (objs : List AllocReq) (db : DB R) : DB R × P R :=
     | _ => replaceAll db retryCount db2 objs
   match res with
   | .ok db3 =>
-    let empties := match ctx.kind with
-      | .put => if objs.isEmpty then ctx.created else []
-      | _ => createdEmpty ctx.done ctx.created
-    (db3, cleanupThen empties r204)
+    -- inside the same transaction: consumers created by this request that hold no allocation
+    -- (their entry was empty) are deleted again
+    let createdUuids := (ctx.done.filter (fun t => ctx.created.contains t.2.1.id)).map (·.2.1.uuid)
+    (deleteConsumersIfNoAllocs db3 createdUuids, .done r204)
   | .error e => (db, cleanupThen ctx.created (aErr ctx e))
 
 /-- read the providers named by the current consumer entry, one transaction each; `k` is the rest
@@ -304,11 +304,12 @@ def allocReqsOf (c : ConsumerReq) (cons : ConsRow) (rows : List RpRow) : List Al
 def clearReqsOf (db : DB R) (cons : ConsRow) : List AllocReq :=
   match db.consByUuid cons.uuid with
   | none => []
-  | some cur => (db.allocs.filter (·.consumer == cons.uuid)).filterMap (fun a =>
+  | some _ => (db.allocs.filter (·.consumer == cons.uuid)).filterMap (fun a =>
       match db.rpById a.rp, db.rcName a.rc with
       | some rp, some n =>
-        let o : AllocReq := { rpId := rp.id, rpGen := rp.gen, rcName := n, consId := cur.id,
-                              consUuid := cur.uuid, consGen := cur.gen, used := 0 }
+        -- the write is guarded by the consumer object `ensure_consumer` validated
+        let o : AllocReq := { rpId := rp.id, rpGen := rp.gen, rcName := n, consId := cons.id,
+                              consUuid := cons.uuid, consGen := cons.gen, used := 0 }
         some o
       | _, _ => none)
 
@@ -451,6 +452,23 @@ def pReshape (cfg : Config) (mv : Nat) (invs : List (RpInvReq R)) (cs : List Con
     | [] => aNext { cfg := cfg, mv := mv, kind := .reshape } cs
     | _ :: _ => .txn .getRp (aReshapeRps cfg mv invs [] cs)
 
+/-! ### DELETE /allocations/{consumer}: read the rows, delete them, then delete the consumer in a
+separate transaction (rows are identified by value here; the code deletes by row id) -/
+
+def tAllocDeleteC (consumer : Nat) (db : DB R) : DB R × P R :=
+  (deleteConsumersIfNoAllocs db [consumer], .done r204)
+
+def tAllocDeleteW (rows : List AllocRow) (consumer : Nat) (db : DB R) : DB R × P R :=
+  ({ db with allocs := db.allocs.filter (fun a => !rows.contains a) }, .txn .cleanup (tAllocDeleteC consumer))
+
+def tAllocDeleteR (consumer : Nat) (db : DB R) : DB R × P R :=
+  -- `get_all_by_consumer_id` joins allocations with providers and the consumer record
+  let rows := db.allocs.filter (fun a => a.consumer == consumer &&
+    (db.rpById a.rp).isSome && (db.consByUuid consumer).isSome)
+  if rows.isEmpty then (db, .done r404) else (db, .txn .main (tAllocDeleteW rows consumer))
+
+def pAllocDelete (consumer : Nat) : P R := .txn .getAllocs (tAllocDeleteR consumer)
+
 /-- the transaction program of a request; requests outside the concurrency scope run as one step -/
 def stepTxn (cfg : Config) (op : Op R) (db : DB R) : DB R × P R :=
   let (db', r) := step cfg db op
@@ -468,6 +486,7 @@ def prog (cfg : Config) : Op R → P R
   | .allocPut mv c => pAllocPut cfg mv c
   | .allocPost mv cs => pAllocPost cfg mv cs
   | .reshape mv invs cs => pReshape cfg mv invs cs
+  | .allocDelete c => pAllocDelete c
   | op => .txn .other (stepTxn cfg op)
 
 end Placement
